@@ -182,13 +182,6 @@ class C19(Prop):
         `KNOWN:<tags>` (every departure is the listed symptom of a recorded finding, the rest of the line - session
         ids, payloads, wire bytes - is as demanded) and names this finding"""
         v = impl.split(" ", 1)[0]
-        if finding.get("key") == "site:D-18b":
-            # builder bC18's finding lives in the datagram sender, outside the stream judge: the judge's FIRST (and
-            # therefore only reported) objection is exactly the recorded symptom - `send_datagram` answering
-            # Remote(Timeout) where the connection's outcome is Timeout - and the model's run passed the tagged branch
-            return (re.match(r"^BAD@\d+:expected:conn\.dgs=err:conn:timeout$", v) is not None
-                    and "conn.dgs=err:conn:remote:timeout#D-18b" in model
-                    and "conn.dgs=err:conn:remote:timeout" in impl)
         return v.startswith("KNOWN:") and finding.get("key", "")[5:] in v[6:].split(",")
 
     def observables(self, line, impl):
